@@ -13,6 +13,7 @@ for name, pid, rel, old, new in MUTANTS:
     by.setdefault(pid, []).append(name)
 metas = [(os.path.basename(os.path.dirname(d)), json.load(open(d))) for d in sorted(glob.glob(os.path.join(VERIF, "seeded", "*", "meta.json")))]
 missed = [k for k, m in metas if m.get("strengthened")]
+undetected = [k for k, m in metas if m.get("not_detected")]
 res_file = os.path.join(VERIF, "selftest", "sensitivity_results.json")
 note = ""
 if os.path.exists(res_file):
@@ -31,9 +32,9 @@ property exit 1{note}.
 for pid in sorted(by):
     L.append(f"| {pid} | " + ", ".join(n.split("-", 1)[1] for n in by[pid]) + " |")
 L.append(f"""
-### 12.2 Independently written breaking changes (`seeded/<property>-<a..o>/`)
+### 12.2 Independently written breaking changes (`seeded/<property>-<a..q>/`)
 
-{len(metas)} changes were written by fresh sub-agents in six rounds (a, b: first round; c, d: second round, where each
+{len(metas)} changes were written by fresh sub-agents in seven rounds (a, b: first round; c, d: second round, where each
 agent was additionally told in one line each what the first round had done, so as to do something else, and was
 pushed towards multi-step and cross-feature conditions; e, f: third round, told about both earlier rounds and pushed
 towards changes in *other* modules than the obvious one - codecs, `config.py` identity and matching helpers, the send
@@ -43,22 +44,30 @@ changes; k, l: fifth round, asked for changes to shared infrastructure that brea
 path, changes that need several of something at once (peers, instances, connections, protocol objects in one process),
 a long history or a large value, or that rest on a wrong assumption about the event loop; n, o: sixth round, asked for
 one-to-five-line edits that break one corner of a dimension the property quantifies over, preferably one that needs a
-precise coincidence; g, j, m: spare changes some agents delivered on top). An agent got only the text of one property and a scratch
+precise coincidence; p, q: seventh round, asked to think adversarially about what a deterministic-simulation checker
+hardened against all earlier changes would still overlook; g, j, m: spare changes some agents delivered on top). An agent got only the text of one property and a scratch
 worktree of `/repo` - nothing from `/verif`. Each change comes with `patch.diff`, a demonstration `demo.py` (passes on the
 unchanged tree, fails with the patch) and `meta.json`. `tools/try_seeded.py` re-confirmed all of that in a scratch
 worktree (demo both ways, unedited test suite green with the patch) and then ran the property's quick check against the
 patched copy (`VERIF_REPO`; the patches were not applied to `/repo` itself because background sweeps were using it).
 
-{len(metas) - len(missed)} were detected at once. {len(missed)} were missed by the check as it stood; each miss led to a stronger
-*workload* (never to a weaker oracle), after which all {len(metas)} are detected. One miss (`C05-d`) also exposed a limitation
+{len(metas) - len(missed) - len(undetected)} were detected at once. {len(missed)} were missed by the check as it stood; each of these led to a stronger
+*workload* (never to a weaker oracle) and is detected now. **{len(undetected)} changes of the last round are not detected** by the check
+of the property they were written for ({", ".join("`" + k + "`" for k in undetected)}): they need a user-supplied listener or
+handler that raises or re-enters the library, a transport whose send fails or that delivers synchronously, several
+sending threads, or (one) a matching rule the discovery model does not mirror - see §11 and the table rows. They stay in
+`seeded/` with `"not_detected": true` so that the gap is on record; `tools/recheck_seeded.py` expects exactly these to pass. One miss (`C05-d`) also exposed a limitation
 of the engine - connection loss closed both sockets, although the discovery endpoint has two transports - and fixing
 that exposed the library defect repaired by the eleventh `fix:` commit.
 
 | change | needs, in order to manifest | caught by | first attempt |
 |---|---|---|---|""")
 for k, m in metas:
-    first = "missed -> " + m["strengthened"] if m.get("strengthened") else "detected"
-    res = m["result"].split("DETECTED afterwards:")[-1].strip() if m.get("strengthened") else m["result"].split(":", 1)[1].strip()
+    first = "missed -> " + m["strengthened"] if m.get("strengthened") else "NOT DETECTED" if m.get("not_detected") else "detected"
+    if m.get("not_detected"):
+        res = "- (" + m["result"][:300] + ")"
+    else:
+        res = m["result"].split("DETECTED afterwards:")[-1].strip() if m.get("strengthened") else m["result"].split(":", 1)[1].strip()
     if res.startswith("MISSED"):
         res = "the property's check after strengthening"
     L.append(f"| `{k}` {m['change']} | {m['needs_to_manifest']} | {res} | {first} |")
@@ -79,8 +88,9 @@ with bit 15 set; several connections per process; crowds of several hundred send
 beyond one 1400-byte datagram; options that change between the offers of one instance; 194 days of quiet; a second SD
 stack in the same process; IPv6 and IPv4-mapped callers; payloads in a thousand pieces; objects built before the loop
 runs; an operation a few loop iterations into the cascade an instant started; flag-clear session ids that repeat;
-link-local IPv6 peers told apart by the scope id; a TTL below the cyclic period; timings changed after construction;
-two instances
+link-local IPv6 peers told apart by the scope id; a TTL below the cyclic period; timings changed after construction; session id 0 and SOME/IP client ids; handlers that are falsy callables or raise
+exception subclasses; 64-70 entries per message; 70 queue destinations; 17-40 eventgroups at one server; a values dict
+that is replaced; two instances
 sharing service and instance id; a lost StopOffer followed by a restart within the TTL; empty event values; messages
 with the unicast flag clear; peer restarts during the session-id soak; one endpoint in two eventgroups; type bytes
 with the TP bit). Each is now generated on purpose and most are reported as probes in the evidence.
